@@ -282,17 +282,16 @@ func c19Pull(c *core.Ctx, r *c19run) {
 	a := &c19reads{c: c, may: map[*types.Func]int{}, sums: map[ast.Node]*c19sum{}, decls: map[*types.Func]*c19decl{}}
 	doneFn := map[*types.Func]bool{}
 	for _, ps := range r.pulls {
-		uf := ps.u.f
+		uf := ps.f
 		// pull is called with run's own key and flag
 		okArgs := true
 		for _, arg := range ps.call.Args {
-			o := c19obj(uf, arg)
 			t := uf.Info.TypeOf(arg)
 			switch {
 			case c19isString(t):
-				okArgs = okArgs && o == types.Object(r.keyObj)
+				okArgs = okArgs && r.fromRunParam(uf, arg, r.keyObj, 0)
 			case c19isBool(t):
-				okArgs = okArgs && o == types.Object(r.prefObj)
+				okArgs = okArgs && r.fromRunParam(uf, arg, r.prefObj, 0)
 			}
 		}
 		c.Check(okArgs, "R-C19-2", ps.u.name+"|pull reads run's key with run's prefix flag", pos(c, ps.call),
